@@ -970,6 +970,23 @@ func init() {
 			p.Actions = append(p.Actions, Action{At: t, Kind: Pick(r, []string{AOutDelete, AExpire}), Key: "g1"})
 			t += p.TTL/2 + r.Dur(2*sec, 5*sec)
 		}
+		if r.Bool(0.3) {
+			// connection monitoring: short blips (a disconnect and its reconnect well inside the grace
+			// period, or a lone reconnect) reach leaders and followers alike early in the plan; the
+			// later vacancies then have to be found by the periodic check (notifications dropped)
+			for i := range p.Insts {
+				p.Insts[i].Monitor = true
+				p.Insts[i].Grace = Pick(r, []time.Duration{0, 2*p.H + 5*sec})
+				for k := 0; k < 1+r.Intn(2); k++ {
+					td := r.Dur(p.H, end+sec)
+					if r.Bool(0.7) {
+						p.Actions = append(p.Actions, Action{At: td, Kind: ADisconnect, Inst: i})
+					}
+					p.Actions = append(p.Actions, Action{At: td + r.Dur(20*ms, 900*ms), Kind: AReconnect, Inst: i})
+				}
+			}
+			p.Faults = append(p.Faults, Fault{Kind: FWatchDrop, Inst: -1, From: end + sec, To: t + 10*sec, Prob: 0.8})
+		}
 		end = t
 		p.Until = end + 6*sec
 		p.Tail = p.TTL + 2*sec
@@ -1850,6 +1867,56 @@ func init() {
 		p.Tail = 0
 		statusCalls(r, p)
 		p.Sched = SchedCfg{YieldProb: Pick(r, []float64{0, 0.2, 0.5}), StallMax: 0}
+		return p
+	}
+}
+
+func init() {
+	// "ctxfollower": a FOLLOWER's run is ended by cancelling the context given to Start while one of
+	// its periodic reads is on its way to a slow store, and Start is called again before that read
+	// is answered: the previous run's watch loop is still alive (waiting for the answer) when the
+	// new run becomes a follower. Later the record changes hands, and later still it is removed
+	// with the watch notifications dropped: the restarted follower must follow (LeaderID) and
+	// must fill the vacancy.
+	families["ctxfollower"] = func(r *Rng) *Plan {
+		p := &Plan{Judge: []string{"C06", "C18", "C08", "C19", "C05"}, NoJudge: []string{"C02", "C07", "C09"}}
+		baseTiming(r, p, []time.Duration{100 * ms, 200 * ms, 500 * ms, 1 * sec})
+		n := 2 + r.Intn(2)
+		p.Insts = mkInsts(r, n, 1)
+		for i := range p.Insts {
+			p.Insts[i].V = Pick(r, []time.Duration{0, p.H, 2 * p.H})
+		}
+		p.Store = healthyStore(r, p.H/10)
+		// instance 1 leads first; instance 0 (the one that is restarted) follows
+		p.Actions = append(p.Actions, Action{At: 0, Kind: AStart, Inst: 1})
+		p.Actions = append(p.Actions, Action{At: r.Dur(p.H, 2*p.H), Kind: AStart, Inst: 0})
+		for i := 2; i < n; i++ {
+			p.Actions = append(p.Actions, Action{At: r.Dur(p.H, 3*p.H), Kind: AStart, Inst: i})
+		}
+		k := 2 + r.Intn(4) // the follower's k-th read is slow
+		slow := r.Dur(400*ms, 2*sec)
+		p.Faults = append(p.Faults, Fault{Kind: FSlow, Inst: 0, Op: "get", OpN: k, Arg: slow})
+		cd := r.Dur(0, slow/3)
+		p.Actions = append(p.Actions, Action{Kind: ACancelStart, Inst: 0, OpKind: "get", OpN: k, Phase: "invoke", Delay: cd})
+		p.Actions = append(p.Actions, Action{Kind: AStart, Inst: 0, OpKind: "get", OpN: k, Phase: "invoke", Delay: cd + Pick(r, []time.Duration{0, 1, r.Dur(0, slow/3)})})
+		// the read is issued at about 2H + k/2 seconds: afterwards the leader hands over, then the key is removed
+		t := 2*p.H + time.Duration(k)*500*ms + slow + r.Dur(sec, 3*sec)
+		p.Actions = append(p.Actions, Action{At: t, Kind: AStopCtx, Inst: 1, DeleteKey: true})
+		t += r.Dur(2*sec, 4*sec)
+		if r.Bool(0.6) {
+			p.Faults = append(p.Faults, Fault{Kind: FWatchDrop, Inst: -1, From: t - sec, To: t + 20*sec})
+		}
+		p.Actions = append(p.Actions, Action{At: t, Kind: Pick(r, []string{AOutDelete, AExpire}), Key: "g1"})
+		if n > 2 && r.Bool(0.5) {
+			// the other candidates have left by then: the restarted follower is the only one
+			for i := 2; i < n; i++ {
+				p.Actions = append(p.Actions, Action{At: t - r.Dur(100*ms, sec), Kind: AStop, Inst: i})
+			}
+		}
+		p.Until = t + p.TTL + 4*sec
+		p.Tail = p.TTL + 2*sec
+		statusCalls(r, p)
+		p.Sched = SchedCfg{YieldProb: Pick(r, []float64{0, 0.2, 0.5}), StallMax: Pick(r, []time.Duration{0, 0, p.H / 50})}
 		return p
 	}
 }
